@@ -118,10 +118,33 @@ class StmtMixin:
         return False
 
     def ex_Break(self, s, fr, st):
+        if fr.loops:
+            fr.loops[-1]["break"].append(st.copy())
+            return False
         raise LoopCtl("break")
 
     def ex_Continue(self, s, fr, st):
+        if fr.loops:
+            fr.loops[-1]["continue"].append(st.copy())
+            return False
         raise LoopCtl("continue")
+
+    def _loop_body(self, body, fr, st, ctx, take=("continue",)):
+        """one evaluation of a loop body; the states captured at `continue` (and optionally `break`) re-join the
+        fall-through state at the end of the iteration.  Returns whether any path reaches the next iteration."""
+        entry_len = len(st.pc)
+        falls = self.exec_block(body, fr, st)
+        joined = []
+        for k in take:
+            joined += ctx[k]
+            ctx[k] = []
+        if not joined:
+            return falls
+        none = self.const(None)
+        exits = [(s_, none) for s_ in joined] + ([(st, none)] if falls else [])
+        mst, _v = self.merge_exits(exits, entry_len)
+        st.assign_from(mst)
+        return True
 
     # ------------------------------------------------------------ assignment
     def ex_Assign(self, s, fr, st):
@@ -370,27 +393,39 @@ class StmtMixin:
             chunks = it.extra["chunks"]
             self.assign(s.target, self.mk("Tuple", chunks, None, site) if len(chunks) != 1 or
                         isinstance(s.target, (ast.Tuple, ast.List)) else chunks[0], fr, st)
-            st.pc = st.pc + ((self.mk("InLoop", (it,), None, site), True),)
+            marker = self.mk("InLoop", (it,), None, site)
+            st.pc = st.pc + ((marker, True),)
+            ctx = {"break": [], "continue": []}
+            fr.loops.append(ctx)
             try:
-                falls = self.exec_block(s.body, fr, st)
-            except LoopCtl:
-                falls = True
-            st.pc = st.pc[:-1] if st.pc and st.pc[-1][0].op == "InLoop" else st.pc
+                falls = self._loop_body(s.body, fr, st, ctx, take=("continue", "break"))
+            finally:
+                fr.loops.pop()
+            st.pc = tuple(x for x in st.pc if x[0] is not marker)
             return falls
         items = self.known_items(it)
         if items is not None:
-            for x in items:
-                self.assign(s.target, x, fr, st)
-                try:
-                    if not self.exec_block(s.body, fr, st):
-                        return False
-                except LoopCtl as lc:
-                    self.effect("unsupported", site, st, fr, what="loopctl-in-unrolled:" + lc.kind)
-                    if lc.kind == "break":
+            loop_entry = len(st.pc)
+            ctx = {"break": [], "continue": []}
+            fr.loops.append(ctx)
+            alive = True
+            try:
+                for x in items:
+                    self.assign(s.target, x, fr, st)
+                    if not self._loop_body(s.body, fr, st, ctx):
+                        alive = False
                         break
-            if s.orelse:
-                return self.exec_block(s.orelse, fr, st)
-            return True
+            finally:
+                fr.loops.pop()
+            if alive and s.orelse:
+                alive = self.exec_block(s.orelse, fr, st)
+            if ctx["break"]:
+                none = self.const(None)
+                exits = [(s_, none) for s_ in ctx["break"]] + ([(st, none)] if alive else [])
+                mst, _v = self.merge_exits(exits, loop_entry)
+                st.assign_from(mst)
+                alive = True
+            return alive
         return self._opaque_loop(s, it, fr, st, site)
 
     def _opaque_loop(self, s, it, fr, st, site):
@@ -408,10 +443,12 @@ class StmtMixin:
             n_exits = len(fr.exits)
             self.assign(s.target, self.iter_elem(it, site), fr, s1)
             tnames = {n.id for n in ast.walk(s.target) if isinstance(n, ast.Name)}
+            ctx = {"break": [], "continue": []}
+            fr.loops.append(ctx)
             try:
-                self.exec_block(s.body, fr, s1)
-            except LoopCtl:
-                pass
+                self._loop_body(s.body, fr, s1, ctx, take=("continue", "break"))
+            finally:
+                fr.loops.pop()
             had_exit = len(fr.exits) > n_exits
             del fr.exits[n_exits:]
             ch_locals = [k for k in s1.locals if k not in tnames and
@@ -428,28 +465,43 @@ class StmtMixin:
                 init = st.locals.get(name, self.undefined)
                 init = self.res(init, st) if init.op != "Undefined" else init
                 p = self.mk("LoopVar", (), (depth, k), site)
+                p.extra = {"init": init}
                 st.locals[name] = p
                 carried.append(("l", name, init, p))
                 k += 1
             for cid in ch_cur:
                 init = self.res(self.g.nodes[cid], st)
                 p = self.mk("LoopVar", (), (depth, k), site)
-                p.extra = {"view_of": self.g.nodes[cid]}
+                p.extra = {"view_of": self.g.nodes[cid], "init": init}
                 st.cur[cid] = p
                 carried.append(("c", cid, init, p))
                 k += 1
             for hk in ch_heap:
                 init = st.heap.get(hk, self.undefined)
                 p = self.mk("LoopVar", (), (depth, k), site)
+                p.extra = {"init": init}
                 st.heap[hk] = p
                 carried.append(("h", hk, init, p))
                 k += 1
             st.pc = st.pc + ((marker, True),)
             self.assign(s.target, self.iter_elem(it, site), fr, st)
+            ctx = {"break": [], "continue": []}
+            fr.loops.append(ctx)
             try:
-                self.exec_block(s.body, fr, st)
-            except LoopCtl:
-                pass
+                n_br = 0
+                entry_len = len(st.pc)
+                falls = self.exec_block(s.body, fr, st)
+                n_br = len(ctx["break"])
+                joined = ctx["continue"] + ctx["break"]
+                if joined:
+                    none = self.const(None)
+                    exits = [(s_, none) for s_ in joined] + ([(st, none)] if falls else [])
+                    mst, _v = self.merge_exits(exits, entry_len)
+                    st.assign_from(mst)
+            finally:
+                fr.loops.pop()
+            if n_br:
+                self.effect("unsupported", site, st, fr, what="break-in-opaque-loop")
             if had_exit:
                 self.effect("unsupported", site, st, fr, what="return-in-loop")
             st.pc = tuple(x for x in st.pc if x[0] is not marker)
